@@ -121,6 +121,7 @@ class Spec(object):
         self.old = OldView(self, 'old%s__' % tag)
         self.pins = {}
         self.definitions = []
+        self.assumed_nonzero = []
 
     def wrap(self, v):
         if isinstance(v, ScalarVar) and v.name in self.gen.fn.pins:
@@ -156,8 +157,11 @@ class Spec(object):
     def forall(self, lo, hi, body, inst=None):
         return Quant(lo, hi, body, inst)
 
-    def loop(self, ordinal, inv, variant=None, terms=None, repl=None):
-        self.loops[(ordinal, repl)] = dict(inv=inv, variant=variant, terms=terms)
+    def loop(self, ordinal, inv, variant=None, terms=None, repl=None, local=None):
+        self.loops[(ordinal, repl)] = dict(inv=inv, variant=variant, terms=terms, local=local)
+
+    def assume_nonzero_divisors_in(self, *fnames):
+        self.assumed_nonzero += list(fnames)
 
     def terms(self, *ts):
         self.user_terms += [E.const(t) for t in ts]
@@ -262,6 +266,12 @@ class GenError(Exception):
     pass
 
 
+def cstr_short(e):
+    from expr import cstr
+    t = cstr(e)
+    return t if len(t) < 80 else t[:77] + '...'
+
+
 class Generator(object):
     def __init__(self, fn, contract, contracts, prop, cfgname='', options=None):
         self.fn = fn
@@ -289,6 +299,10 @@ class Generator(object):
         self.assumption_notes = []
         self.dup_guard = {}
         self.section = 0
+        self.range_seen_here = set()
+        self.assumed_notes = set()
+        self.used_lemmas = getattr(self, 'used_lemmas', set())
+        self.side_harnesses = []
 
     # ---------------------------------------------------------------------------------------- low level
     def fresh_global(self, base, ty, array=False):
@@ -484,10 +498,63 @@ class Generator(object):
             return lv.name
         return '%s[%s]' % (lv.name, self.p(lv.index))
 
+    # ---- absence of int overflow in the extracted code (what makes the Int reading of C ints exact)
+    def long_expr(self, e):
+        """C text computing the int expression e in 64-bit arithmetic (exact for 32-bit operands)"""
+        if e.op == 'const':
+            return '%dL' % int(e.args[0]) if int(e.args[0]) >= 0 else '(%dL)' % int(e.args[0])
+        if e.op in ('var', 'idx'):
+            return '((long)%s)' % self.p(e)
+        if e.op == 'neg':
+            return '(-%s)' % self.long_expr(e.args[0])
+        if e.op in ('+', '-', '*'):
+            return '(%s %s %s)' % (self.long_expr(e.args[0]), e.op, self.long_expr(e.args[1]))
+        if e.op == 'ite':
+            return '(%s ? %s : %s)' % (self.p(e.args[0]), self.long_expr(e.args[1]), self.long_expr(e.args[2]))
+        return '((long)%s)' % self.p(e)
+
+    def int_ranges(self, e, guard_txt=None):
+        """one obligation per maximal int arithmetic subexpression of a code expression"""
+        if not isinstance(e, E) or self.opt.get('skip_int_range'):
+            return
+        def walk(x, top):
+            if x.op in ('const', 'var'):
+                return
+            if x.ty == INT and x.op in ('+', '-', '*', 'neg'):
+                if top:
+                    self.emit_int_range(x)
+                for a in x.args:
+                    walk(a, False)
+                # sub-terms of an in-range sum need their own check (a*b+c in range does not bound a*b)
+                for a in x.args:
+                    if isinstance(a, E) and a.ty == INT and a.op in ('+', '-', '*', 'neg'):
+                        self.emit_int_range(a)
+                return
+            for a in x.args:
+                if isinstance(a, E):
+                    walk(a, True)
+        walk(e, True)
+
+    def emit_int_range(self, x):
+        txt = self.long_expr(x)
+        key = (len(self.lines), txt)
+        if txt in self.range_seen_here:
+            return
+        self.range_seen_here.add(txt)
+        ob = Obligation('%s/%s/int_range.%d[%s]' % (self.prop, self.fn.key, len(self.obls) + 1, self.cfgname), 'int_range', 'no signed overflow in ' + cstr_short(x))
+        self.obls.append(ob)
+        ob.index = len(self.obls)
+        self.out('__CPROVER_assert((%s >= (-2147483648L)) && (%s <= 2147483647L), "int_range");' % (txt, txt))
+
     def stmt(self, s, spec):
+        self.range_seen_here = set()
         if isinstance(s, Assign):
+            self.int_ranges(s.e)
+            if s.lv.index is not None:
+                self.int_ranges(s.lv.index)
             self.out('%s = %s;' % (self.lv_c(s.lv), self.p(s.e)))
         elif isinstance(s, If):
+            self.int_ranges(s.c)
             self.out('if (%s) {' % self.p(s.c))
             self.ind += 1
             self.stmts(s.then, spec)
@@ -504,6 +571,11 @@ class Generator(object):
             self.out('%s: ;' % s.label)
         elif isinstance(s, Assert):
             if s.kind == 'bounds' and self.opt.get('skip_bounds'):
+                return
+            if s.kind == 'div' and any(getattr(s, 'fname', '').endswith(x) for x in spec.assumed_nonzero):
+                # stated assumption (DESIGN s4.3): the pivot blocks of the MINCO system are non-singular
+                self.emit_assume(s.e, 'ASSUMED non-singular pivot (%s)' % s.label)
+                self.assumed_notes.add('non-singular pivot blocks: divisions in %s assumed well-defined' % getattr(s, 'fname', '?'))
                 return
             oid = '%s/%s/%s.%d[%s]' % (self.prop, self.fn.key, s.kind, len(self.obls) + 1, self.cfgname)
             self.emit_assert(s.e, oid, s.kind, s.label)
@@ -606,18 +678,40 @@ class Generator(object):
             for label, prop in self.stable_quants:
                 self.assume_quants_over(prop, pool, 'requires %s (loop terms)' % label)
         variant0 = None
+        self.range_seen_here = set()
+        self.int_ranges(lp.cond)
         self.out('if (%s) {' % self.p(lp.cond))
         self.ind += 1
         if ls.get('variant'):
             variant0 = self.fresh_global('var0', INT)
             self.out('%s = %s;' % (self.p(variant0), self.p(ls['variant'](L))))
+        # bounds of the quantified invariants before the iteration (to separate old elements from the new one at the step)
+        old_bounds = {}
+        for label, prop in invs:
+            if isinstance(prop, Quant):
+                lo_o = self.fresh_global('lo_old', INT)
+                hi_o = self.fresh_global('hi_old', INT)
+                self.out('%s = %s; %s = %s;' % (self.p(lo_o), self.p(prop.lo), self.p(hi_o), self.p(prop.hi)))
+                old_bounds[label] = (lo_o, hi_o)
         self.cur_loop = (owner, lp, L)
         self.stmts(lp.body, spec)
+        if ls.get('local'):
+            pre = ls['local']['pre'](L)
+            post = ls['local']['post'](L)
+            lh = local_iteration_harness(self, lp, L, pre, post, self.prop, self.cfgname)
+            if not any(x.name == lh.name for x in self.side_harnesses):
+                self.side_harnesses.append(lh)
+            for lab, pfact in post:
+                self.emit_assume(pfact, 'local iteration lemma ' + lab)
         self.stmts(lp.step, spec)
         invs2 = ls['inv'](L)
         self.section += 1
         for label, prop in invs2:
-            self.assert_prop(prop, '%s.step.%s[%s]' % (base_id, label, self.cfgname), 'inv_step')
+            oid = '%s.step.%s[%s]' % (base_id, label, self.cfgname)
+            if isinstance(prop, Quant) and label in old_bounds and not _is_nested(prop):
+                self.assert_quant_step(prop, old_bounds[label], oid)
+            else:
+                self.assert_prop(prop, oid, 'inv_step')
         if variant0 is not None:
             v1 = ls['variant'](L)
             self.emit_assert((variant0 >= 0) & (E.const(v1) < variant0), '%s.decreases[%s]' % (base_id, self.cfgname), 'variant')
@@ -625,6 +719,25 @@ class Generator(object):
         self.ind -= 1
         self.out('}')
         self.out('/* ---- loop %s : exit */' % lid)
+
+    def assert_quant_step(self, q, old, oid):
+        """forall k in [lo',hi'): B(k)  split into: elements that were already in the old range (skolem), the new top element,
+        the new bottom element, and the (integer-only) coverage fact.  The new elements are stated without a skolem, so they
+        match the facts established by the body syntactically."""
+        lo_o, hi_o = old
+        sk = self.skolem(0)
+        in_new = lambda t: (q.lo <= t) & (t < q.hi)
+        in_old = lambda t: (lo_o <= t) & (t < hi_o)
+
+        def each(guard, t, tag):
+            b = q.body(t)
+            items = b if isinstance(b, (list, tuple)) else [b]
+            for j, x in enumerate(items):
+                self.emit_assert(implies(guard, conj_all(x)), '%s.%s#%d' % (oid, tag, j), 'inv_step')
+        each(in_new(sk) & in_old(sk), sk, 'kept')
+        each(in_new(hi_o) & mk_not(in_old(hi_o)), hi_o, 'new_top')
+        each(in_new(lo_o - 1) & mk_not(in_old(lo_o - 1)), lo_o - 1, 'new_bottom')
+        self.emit_assert(implies(in_new(sk), in_old(sk) | sk.eq(hi_o) | sk.eq(lo_o - 1)), '%s.coverage' % oid, 'inv_step')
 
     def run_ghosts(self, owner, lp, anchor, L):
         for key in ('loop%s.%s' % (lp.key[1], anchor),):
@@ -746,6 +859,9 @@ class Generator(object):
         h.obligations = self.obls
         h.text = self.render()
         h.frame_problems = frame_problems
+        h.assumed = sorted(self.assumed_notes)
+        h.used_lemmas = sorted(self.used_lemmas)
+        h.side_harnesses = list(self.side_harnesses)
         h.name = '%s[%s]' % (fn.key, self.cfgname)
         return h
 
@@ -827,6 +943,14 @@ class Generator(object):
         return '\n'.join(L) + '\n'
 
 
+def _is_nested(q):
+    try:
+        b = q.body(E.var('sk0', INT))
+    except Exception:
+        return True
+    return isinstance(b, Quant) or (isinstance(b, (list, tuple)) and any(isinstance(x, Quant) for x in b))
+
+
 def _quants_of(prop):
     if isinstance(prop, Quant):
         return [prop]
@@ -836,6 +960,37 @@ def _quants_of(prop):
             out += _quants_of(x)
         return out
     return []
+
+
+def lemma_harness(lemma, prop):
+    """stand-alone harness of a pure lemma"""
+    pr = Printer('real')
+    names = ['a%d' % i for i in range(lemma.nparams)]
+    args = [E.var(n, REAL) for n in names]
+    hyp = pr.p(E.const(lemma.hyp(*args)))
+    con = pr.p(E.const(lemma.concl(*args)))
+    L = ['/* pure lemma %s */' % lemma.name, 'typedef __CPROVER_rational real;']
+    for n in sorted(pr.consts):
+        L.append('real %s;' % n)
+    for n in names:
+        L.append('real %s;' % n)
+    L.append('int main(void) {')
+    for n, fr in sorted(pr.consts.items()):
+        L.append('  __CPROVER_assume(%s * %d == %d);' % (n, fr.denominator, fr.numerator))
+    L.append('  __CPROVER_assume(%s);' % hyp)
+    L.append('  __CPROVER_assert(%s, "lemma");' % con)
+    L.append('  __CPROVER_assert(0, "reach");')
+    L.append('  return 0;\n}')
+    h = Harness()
+    h.text = '\n'.join(L) + '\n'
+    h.name = 'lemma.%s' % lemma.name
+    o1 = Obligation('%s/lemma/%s' % (prop, lemma.name), 'lemma', 'pure lemma')
+    o1.index = 1
+    o2 = Obligation('%s/lemma/%s/reach' % (prop, lemma.name), 'reach', 'hypotheses satisfiable')
+    o2.index = 2
+    h.obligations = [o1, o2]
+    h.frame_problems = []
+    return h
 
 
 class GhostCtx(object):
@@ -858,3 +1013,177 @@ class GhostCtx(object):
 
     def assume_fact(self, prop, why):
         self.gen.assume_prop(prop, why)
+
+    def use(self, lemma, *args):
+        """instance of a pure lemma (proved separately for all reals)"""
+        args = [E.const(a) for a in args]
+        self.gen.used_lemmas.add(lemma.name)
+        self.gen.emit_assume(implies(lemma.hyp(*args), lemma.concl(*args)), 'lemma ' + lemma.name)
+
+
+# =====================================================================================================================
+# Local iteration lemmas: one loop iteration executed on scalarised memory (array-free), so that the per-segment algebra
+# is decided by a complete NRA procedure (nlsat) in isolation.  The lemma's conclusion is then assumed at the end of the
+# loop body of the in-context harness.  Faithfulness of the scalarisation: every array cell touched by the iteration is
+# named by (array, linear form of its index over the iteration's input ints); two cells of one array are distinct iff
+# their linear forms differ by a non-zero constant; anything else aborts (GenError).
+# =====================================================================================================================
+
+class LinForm(object):
+    def __init__(self, coef=None, const=0):
+        self.coef = dict(coef or {})
+        self.const = const
+
+    def key(self):
+        return (tuple(sorted((k, v) for k, v in self.coef.items() if v != 0)), self.const)
+
+    def vars_key(self):
+        return tuple(sorted((k, v) for k, v in self.coef.items() if v != 0))
+
+
+def linform(e, env):
+    """linear form of an int expression over base variables; env: int scalar -> LinForm (forward substitution)"""
+    if e.op == 'const':
+        return LinForm({}, int(e.args[0]))
+    if e.op == 'var':
+        n = e.args[0]
+        if n in env:
+            return env[n]
+        return LinForm({n: 1}, 0)
+    if e.op in ('+', '-'):
+        a, b = linform(e.args[0], env), linform(e.args[1], env)
+        sgn = 1 if e.op == '+' else -1
+        c = dict(a.coef)
+        for k, v in b.coef.items():
+            c[k] = c.get(k, 0) + sgn * v
+        return LinForm(c, a.const + sgn * b.const)
+    if e.op == 'neg':
+        a = linform(e.args[0], env)
+        return LinForm({k: -v for k, v in a.coef.items()}, -a.const)
+    if e.op == '*':
+        a, b = linform(e.args[0], env), linform(e.args[1], env)
+        if not any(a.coef.values()):
+            return LinForm({k: v * a.const for k, v in b.coef.items()}, a.const * b.const)
+        if not any(b.coef.values()):
+            return LinForm({k: v * b.const for k, v in a.coef.items()}, a.const * b.const)
+    raise GenError('index expression is not linear: %s' % cstr_short(e))
+
+
+class Scalariser(object):
+    def __init__(self):
+        self.cells = {}       # (arr, linform key) -> (scalar name, ty)
+        self.by_arr = {}      # arr -> [LinForm]
+        self.int_env = {}
+        self.n = 0
+
+    def cell(self, arr, idx, ty):
+        lf = linform(idx, self.int_env)
+        k = (arr, lf.key())
+        if k not in self.cells:
+            for other in self.by_arr.get(arr, []):
+                if other.vars_key() != lf.vars_key():
+                    raise GenError('cannot scalarise: cells %s[...] with unrelated index forms' % arr)
+            self.by_arr.setdefault(arr, []).append(lf)
+            self.n += 1
+            self.cells[k] = ('c%d_%s' % (self.n, arr[-24:]), ty)
+        return E.var(self.cells[k][0], ty)
+
+    def ex(self, e):
+        if not isinstance(e, E):
+            return e
+        if e.op == 'const' or e.op == 'var':
+            return e
+        if e.op == 'idx':
+            return self.cell(e.args[0], e.args[1], e.ty)
+        from expr import rebuild
+        return rebuild(e.op, [self.ex(a) for a in e.args], e.ty)
+
+
+def scalar_stmts(stmts, sc, out, pr, ind=1):
+    pad = '  ' * ind
+    for s in stmts:
+        if isinstance(s, Assign):
+            rhs = sc.ex(s.e)
+            if s.lv.index is None:
+                out.append('%s%s = %s;' % (pad, s.lv.name, pr.p(rhs)))
+                if s.lv.ty == INT:
+                    try:
+                        sc.int_env[s.lv.name] = linform(s.e, sc.int_env)
+                    except GenError:
+                        sc.int_env.pop(s.lv.name, None)
+            else:
+                tgt = sc.cell(s.lv.name, s.lv.index, s.lv.ty)
+                out.append('%s%s = %s;' % (pad, pr.p(tgt), pr.p(rhs)))
+        elif isinstance(s, If):
+            out.append('%sif (%s) {' % (pad, pr.p(sc.ex(s.c))))
+            scalar_stmts(s.then, sc, out, pr, ind + 1)
+            if s.els:
+                out.append('%s} else {' % pad)
+                scalar_stmts(s.els, sc, out, pr, ind + 1)
+            out.append('%s}' % pad)
+        elif isinstance(s, (Ghost, Comment)):
+            continue
+        elif isinstance(s, Assert):
+            continue          # structural obligations are discharged in the in-context harness
+        elif isinstance(s, Assume):
+            out.append('%s__CPROVER_assume(%s);' % (pad, pr.p(sc.ex(s.e))))
+        elif isinstance(s, Havoc):
+            if s.arrays:
+                raise GenError('cannot scalarise an iteration that havocs arrays')
+            for n, t in s.scalars:
+                out.append('%s%s = nd_%s;' % (pad, n, n))
+        elif isinstance(s, Label):
+            out.append('%s%s: ;' % (pad, s.label))
+        elif isinstance(s, Goto):
+            out.append('%sgoto %s;' % (pad, s.label))
+        else:
+            raise GenError('cannot scalarise statement %s' % type(s).__name__)
+
+
+def local_iteration_harness(gen, lp, L, pre, post, prop, tag):
+    """array-free harness of one iteration: assume pre, run the body, assert each post fact"""
+    pr = Printer('real')
+    sc = Scalariser()
+    body = []
+    pre_txt = [pr.p(sc.ex(E.const(p))) for _, p in pre]
+    scalar_stmts(lp.body, sc, body, pr)
+    post_txt = [(lab, pr.p(sc.ex(E.const(p)))) for lab, p in post]
+    # declarations: every scalar mentioned
+    names = {}
+    for (arr, k), (n, t) in sc.cells.items():
+        names[n] = t
+    import re as _re
+    text = '\n'.join(pre_txt + body + [t for _, t in post_txt])
+    for n, t in gen.globals_s.items():
+        if _re.search(r'\b%s\b' % _re.escape(n), text):
+            names[n] = t
+    for m in _re.finditer(r'\bnd_(\w+)\b', text):
+        names['nd_' + m.group(1)] = gen.globals_s.get(m.group(1), REAL)
+    Lc = ['/* local iteration lemma: one iteration of %s on scalarised memory */' % (lp.src,), 'typedef __CPROVER_rational real;']
+    for n in sorted(pr.consts):
+        Lc.append('real %s;' % n)
+    for n, t in sorted(names.items()):
+        Lc.append('%s %s;' % (CTYPE[t], n))
+    Lc.append('int main(void) {')
+    for n, fr in sorted(pr.consts.items()):
+        Lc.append('  __CPROVER_assume(%s * %d == %d);' % (n, fr.denominator, fr.numerator))
+    for t in pre_txt:
+        Lc.append('  __CPROVER_assume(%s);' % t)
+    Lc += body
+    obls = []
+    for lab, t in post_txt:
+        o = Obligation('%s/%s/local.%s[%s]' % (prop, lp.key[0], lab, tag), 'local', 'iteration lemma')
+        obls.append(o)
+        o.index = len(obls)
+        Lc.append('  __CPROVER_assert(%s, "%s");' % (t, lab))
+    o = Obligation('%s/%s/local.reach[%s]' % (prop, lp.key[0], tag), 'reach', 'iteration reachable')
+    obls.append(o)
+    o.index = len(obls)
+    Lc.append('  __CPROVER_assert(0, "reach");')
+    Lc.append('  return 0;\n}')
+    h = Harness()
+    h.text = '\n'.join(Lc) + '\n'
+    h.name = 'local.%s.loop%s[%s]' % (lp.key[0], lp.key[1], tag)
+    h.obligations = obls
+    h.frame_problems = []
+    return h
